@@ -859,3 +859,19 @@ def pass_over_iterator(fn, is_source):
             elif nm not in _TOTAL_ADAPTERS:
                 problems.append(f"unclassified adapter `{nm}`")
     return kind, problems
+
+
+def rule_complete_passes(ck, rid, table):
+    """table rows: (function path, source keyword, consequence). Each named function walks the collection whose
+    expression mentions the keyword; the walk must be complete: a `for` loop whose body leaves the function only through
+    an error exit, or an iterator chain built from non-short-circuiting adapters (filter is fine: it is the documented
+    selection, the pass still visits every element)."""
+    for path, kw, what in table:
+        f = ck.anchor(path)
+        if f is None:
+            continue
+        key = short(path)
+        src = lambda e, kw=kw: isinstance(e, tuple) and e[0] in ("field", "call", "agg") and kw in expr_str(e, 6)
+        kind, problems = pass_over_iterator(f, src)
+        ck.ob(rid, f"{key}/walks[{kw.strip('.(')}]", kind is not None, f"shape: {kind}", f.loc())
+        ck.ob(rid, f"{key}/walk-over[{kw.strip('.(')}]-is-complete", kind is not None and not problems, "; ".join(problems), f.loc(), what=what)
